@@ -50,10 +50,17 @@ static void key_of (char *out, const char *name, const char *suffix) {
 }
 
 static void make_names (void) {
+	/* names 0 and 1 differ ONLY in their first byte and contain '%' and non-ASCII bytes; names 2 and 3 are
+	 * about 300 bytes long and differ ONLY in their last byte (280-byte common prefix and more) */
 	for (int i = 0; i < NN; ++i) {
 		char fill[300]; memset (fill, 'x', sizeof fill); fill[i >= 2 ? 280 : 0] = 0;
-		snprintf (sem_name[i], sizeof sem_name[i], "pvipc-%d-%d-%ss%d", (int) getpid (), generation, fill, i);
-		snprintf (shm_name[i], sizeof shm_name[i], "pvipc-%d-%d-%sm%d", (int) getpid (), generation, fill, i);
+		if (i < 2) {
+			snprintf (sem_name[i], sizeof sem_name[i], "%cvipc-%%s%%n\xc3\xa9\xff-%d-%d-sem", i ? 'q' : 'p', (int) getpid (), generation);
+			snprintf (shm_name[i], sizeof shm_name[i], "%cvipc-%%s%%n\xc3\xa9\xff-%d-%d-shm", i ? 'q' : 'p', (int) getpid (), generation);
+		} else {
+			snprintf (sem_name[i], sizeof sem_name[i], "pvipc-%d-%d-%ss%d", (int) getpid (), generation, fill, i);
+			snprintf (shm_name[i], sizeof shm_name[i], "pvipc-%d-%d-%sm%d", (int) getpid (), generation, fill, i);
+		}
 		key_of (sem_key[i], sem_name[i], "_p_sem_object");
 		key_of (shm_key[i], shm_name[i], "_p_shm_object");
 		key_of (lock_key[i], shm_key[i], "_p_sem_object");
